@@ -879,6 +879,62 @@ class Interp:
             self.vars[name] = d
         d[key] = d.get(key, 0) + by
 
+    # docs/functions/any.md: any() "True if any header or variable would return a value"; any(headers()) / any(variables());
+    # any(value) "True if the value can be found in any header or variable"; any(headers(), value) / any(variables(), value)
+    def _cells_with_value(self):
+        return [c for c in self.row if c is not None and str(c).strip() != ""]
+
+    def _vars_with_value(self):
+        out = []
+        for v in self.vars.values():
+            if v is None:
+                continue
+            if isinstance(v, (list, tuple, dict)) and len(v) == 0:
+                raise Unspecified("any() over an empty container variable")
+            if isinstance(v, str) and v.strip() == "":
+                raise Unspecified("any() over a blank string variable")
+            out.append(v)
+        return out
+
+    def _found(self, value, pool):
+        if value is None:
+            raise Unspecified("any() looking for an absent value")
+        hit = False
+        for x in pool:
+            if str(x) == str(value):
+                hit = True
+            elif str(x).strip() == str(value).strip() or (is_numlike(x) and is_numlike(value) and float(x) == float(value)):
+                raise Unspecified("any(): equal only up to whitespace or number formatting")
+        return hit
+
+    def m_any(self, n, q, a):
+        if "onmatch" in q:
+            raise Unspecified("any.onmatch")
+        kinds = [x[1] if x[0] == "f" and x[1] in ("headers", "variables") else None for x in a]
+        if len(a) == 0:
+            return bool(self._cells_with_value()) or bool(self._vars_with_value())
+        if len(a) == 1:
+            if kinds[0] == "headers":
+                return bool(self._cells_with_value())
+            if kinds[0] == "variables":
+                return bool(self._vars_with_value())
+            v = self.value(a[0])
+            return self._found(v, list(self.row)) or self._found(v, list(self.vars.values()))
+        v = self.value(a[1])
+        if kinds[0] == "headers":
+            return self._found(v, list(self.row))
+        if kinds[0] == "variables":
+            return self._found(v, list(self.vars.values()))
+        raise Unmodelled("any() with two arguments needs headers() or variables() first")
+
+    # docs/functions/count_headers.md: "count_headers() returns the number of headers in the headers row";
+    # "count_headers_in_line() counts the number of headers in the current row"
+    def v_count_headers(self, n, q, a):
+        return len(self.headers)
+
+    def v_count_headers_in_line(self, n, q, a):
+        return len(self.row)
+
     # docs/functions/every.md: "Matches every N times a value is seen". The per-value sighting counts are kept under a
     # private key here: the doc's text (<name>_every / <name>) and its pinned test (<name>) disagree about the variable layout,
     # so callers do not assert every()'s variables, only its vote.
